@@ -254,9 +254,11 @@ func (c *Cache[K, V]) MapToCache(m map[K]V, d time.Duration) error {
 
 // IsExpired checks if a cache item is expired.
 func (c *Cache[K, V]) IsExpired(key K) bool {
-	item, err := c.Get(key)
-	if item != nil && err != nil {
-		if item.expiration > time.Now().UnixNano() {
+	c.mu.RLock()
+	defer c.mu.RUnlock()
+
+	if item, ok := c.items[key]; ok {
+		if item.expiration > 0 && time.Now().UnixNano() > item.expiration {
 			return true
 		}
 	}
